@@ -50,6 +50,10 @@ def main(argv=None):
     for name, sc in subs.items():
         if only and name not in only:
             continue
+        if total.fails and not os.environ.get("VERIF_NO_FAILFAST"):
+            meta[name] = dict(units=0, wall_s=0.0, evaluations=0, skipped="an earlier sub-check already found violations")
+            total.counters["capped"] = 1
+            continue
         ts = time.time()
         cases = sc.cases(tier, seed)
         r = core.pmap(pid + "." + name, sc.run, cases, chunks=getattr(sc, "chunks", 1))
@@ -76,7 +80,10 @@ def main(argv=None):
 
 if __name__ == "__main__":
     try:
-        sys.exit(main())
+        rc = main()
+        sys.stdout.flush()
+        sys.stderr.flush()
+        os._exit(rc if isinstance(rc, int) else 0)  # verdict and evidence are written; skip interpreter finalisation (see core.pmap)
     except Exception as ex:  # noqa: BLE001 - a failure of the machinery itself: exit 2, never a VIOLATION
         from . import core as _core
         if isinstance(ex, _core.HarnessError):
